@@ -110,7 +110,7 @@ func (prefixConcEngine) Run(ctx *fw.Ctx, cs any) {
 		ctx.Inconclusive("bad pool")
 		return
 	}
-	h, err := prefix.Plugin.Setup6(c.Pool, fmt.Sprint(c.Alloc))
+	h, err := prefix.Plugin.Setup6(c.Pool, spellAlloc(c.Seed, c.Alloc))
 	if err != nil {
 		ctx.Viol("C08", "setup-fails", "%v", err)
 		return
